@@ -7,3 +7,24 @@ add("C01", "exploration", "property-based round-trip testing (rapid) with an ind
     "Generated well-formed packets (all extension profiles, CSRC counts, padding, empty payloads) are marshalled, checked against MarshalSize and an independent strict RFC parser, and unmarshalled back; failures shrink to a JSON replay. Exploration is the right level: the domain is unbounded and the oracle is executable.",
     "Trusted base: harness/ref/rtpwire (my reading of RFC 3550 5.1/5.3.1 and RFC 8285), rapid's generators; absence of violations only for the cases explored (counts in the evidence file).",
     "DESIGN.md 4/C01")
+
+add("C02", "exploration", "property-based fuzzing of the parser (rapid: random strings, grammar images and byte-level mutants; exhaustive structured enumeration) with a certificate-walk oracle and a fresh-vs-reused metamorphic relation",
+    "Hostile inputs are decoded with panic capture; every accepted parse is certified against the input bytes by an independent walk (offsets, lengths, values, padding), Header and Packet must agree, and a receiver that decoded an earlier hostile input must equal a fresh one. The accept set is deliberately not predicted, so the check is sound on every byte string.",
+    "Trusted base: the certificate walk in harness/c02_test.go and the reference builder used to seed mutants. Exploration only: absence of panics is shown for the inputs generated (counts in evidence), plus a complete enumeration of short structured packets over a boundary alphabet.",
+    "DESIGN.md 4/C02")
+add("C03", "exploration", "property-based differential testing against an independent RFC 3550/8285 builder/parser (rapid), re-encode stability as a metamorphic relation on all accepted mutants",
+    "Images laid out by a reference builder in every way the RFCs allow must decode to the values they were built from; every accepted input must re-encode stably (byte-identical when canonical); the standalone HeaderExtension views must read and re-serialise the same block. One known finding (id-15 payload offset, pinned by an existing unit test) is excluded by its exact signature and counted.",
+    "Trusted base: harness/ref/rtpwire (my reading of the RFCs; two-byte profile = 0x1000 exactly as the library documents). Accept-set questions outside well-formed images are not asserted.",
+    "DESIGN.md 4/C03")
+add("C04", "exploration", "property-based testing (rapid) of MarshalTo against Marshal over generated packets x destination lengths x dirty buffers",
+    "For generated packets, destination lengths around every threshold and dirty prior contents: short buffers must give io.ErrShortBuffer with n=0, sufficient ones exactly Marshal()'s bytes with everything beyond untouched; same for Header.MarshalTo.",
+    "Trusted base: Marshal() as reference for MarshalTo (Marshal itself is checked against the independent parser in C01).",
+    "DESIGN.md 4/C04")
+add("C05", "exploration", "model-based stateful property testing (rapid-drawn operation sequences against an ordered-map model, with a wire round trip as an operation)",
+    "Operation sequences Set/Del/Get/Wire over five start states are run against an ordered-map model that follows the API's return values; after every step all observables must match, an erroring call must leave the header (including its Marshal bytes) unchanged, nothing may panic and every accepted value must survive Marshal/Unmarshal.",
+    "The model does not predict which calls are rejected (only that accepted ones are representable); histories are bounded to 25 operations.",
+    "DESIGN.md 4/C05")
+add("C20", "exploration", "property-based metamorphic testing (rapid): clone equality and non-interference under single mutations",
+    "Generated packets (API-built or decoded from one wire buffer) are cloned; the clone must be observably equal (fields, ids, values, Marshal bytes) and a mutation of either side (payload byte, CSRC, extension value through the returned slice, Set/Del, scalars) must leave the other side's observables and Marshal bytes unchanged; same for Header.Clone.",
+    "Observables are the exported fields and accessors; nil-vs-empty distinctions are not asserted.",
+    "DESIGN.md 4/C20")
